@@ -114,8 +114,14 @@ def run_task(task):
 def _portfolio_job(job):
     from pyvc.solve import portfolio_text
     t0 = time.time()
-    verdict, backend, model = portfolio_text(job)
+    text, budget = job
+    verdict, backend, model = portfolio_text(text, budget)
     return verdict, backend, model, time.time() - t0
+
+
+def _is_violation(r, x):
+    return x["verdict"] == "refuted" and not r["task"].get("canary") \
+        and ".region[" not in x["name"]
 
 
 def run_tasks(tasks, procs=None, retry=True):
@@ -133,10 +139,30 @@ def run_tasks(tasks, procs=None, retry=True):
             if x["verdict"] == "unknown" and x["detail"] == "deferred":
                 jobs.append((x, x["model"]["__smt2__"]))
                 x["model"] = None
+    if jobs and any(_is_violation(r, x) for r in res for x in r.get("results", [])):
+        # something is already refuted: this run reports that violation whatever the
+        # open obligations turn out to be, so they are not pursued (on a broken tree
+        # there can be hundreds, each worth minutes of portfolio time)
+        for (x, _) in jobs:
+            x["detail"] = "not pursued: another obligation of this run is already refuted"
+        jobs = []
     if jobs:
+        from pyvc.solve import PORTFOLIO_S, _scale
         n = max(1, min(len(jobs), procs // 3))
+        # the whole phase fits a wall-clock allowance: with many open obligations each
+        # gets a smaller share (never below 30 s)
+        wall = int(os.environ.get("PYVC_PHASE2_WALL_S", "900")) * _scale()
+        full = PORTFOLIO_S * min(2, _scale())
+        per = int(max(30, min(full, wall * n // len(jobs))))
+        outs = [None] * len(jobs)
         with ctx.Pool(n) as pool:
-            outs = pool.map(_portfolio_job, [j[1] for j in jobs], chunksize=1)
+            it = pool.imap(_portfolio_job, [(j[1], per) for j in jobs], chunksize=1)
+            for i in range(len(jobs)):
+                outs[i] = it.next()
+                if outs[i][0] == "sat" and outs[i][2] is not None:
+                    pool.terminate()       # a refutation: the rest cannot change the verdict
+                    break
+        outs = [o if o is not None else (None, None, None, 0.0) for o in outs]
         for (x, _), (verdict, backend, model, dt) in zip(jobs, outs):
             x["time"] += dt
             x["detail"] = "phase2"
@@ -146,14 +172,14 @@ def run_tasks(tasks, procs=None, retry=True):
                 x["verdict"], x["backend"], x["model"] = "refuted", backend, model
             elif verdict == "sat":
                 x["detail"] = "%s says sat but gave no model" % backend
+            elif verdict is None and backend is None and dt == 0.0:
+                x["detail"] = "not pursued: another obligation of this run was refuted first"
             else:
                 x["detail"] = "all back ends: unknown/timeout"
     # phase 3: one retry of tasks that still have an undecided obligation (solver
     # verdicts can flip under load); a fresh process, fewer workers, larger budget
     # (pointless when something is already refuted: the check reports that violation)
-    if retry and not any(x["verdict"] == "refuted" and not r["task"].get("canary")
-                         and ".region[" not in x["name"]
-                         for r in res for x in r.get("results", [])):
+    if retry and not any(_is_violation(r, x) for r in res for x in r.get("results", [])):
         again = [i for i, r in enumerate(res)
                  if any(x["verdict"] == "unknown" for x in r.get("results", []))]
         if again and len(again) <= 24:
